@@ -644,11 +644,11 @@ SPECS = {
             'assumptions': ['fill bound = values actually stored per block of the Cholesky prediction (relax=1) and the slot monitor on every allocation (all relax)'],
             'deadline': {'quick': 600, 'thorough': 3600}},
     'C03': {'jobs': jobs_C03, 'level': 'model_checking',
-            'rule': 'stateless preemption-bounded DFS (CHESS style) over ALL interleavings of the hooked synchronisation/protocol points of the real factorization, per catalogue job (shape x threads x bound x options); states = distinct global event sequences, transitions = scheduler steps; in every execution: event monitors (consume-before-release/pivot, update twice, write-while-read, I1/I2/I2b on the real scheduler structures), ASan, and the C02 residual of the returned factors; the same catalogue is explored a second time in a build with clang thread-sanitizer INSTRUMENTATION only, linked against our own vector-clock runtime (engines/mcsched/race_rt.h) under the same baton scheduler: every load/store of the stored values and row subscripts of L and U (lusup, lsub, ucol, usub) in every explored execution is checked for an unordered conflicting access by another thread (happens-before edges: column flag spin_locks[], panel state, tasks_remain, ispruned[] publication, mutexes, create/join), so a window between two scheduling points is judged too (race_data_accesses / race_sync_accesses / race_reports)',
+            'rule': 'stateless preemption-bounded DFS (CHESS style) over ALL interleavings of the hooked synchronisation/protocol points of the real factorization, per catalogue job (shape x threads x bound x options); states = distinct global event sequences, transitions = scheduler steps; in every execution: event monitors (consume-before-release/pivot, update twice, write-while-read, I1/I2/I2b on the real scheduler structures), ASan, and the C02 residual of the returned factors; the same catalogue is explored a second time in a build with clang thread-sanitizer INSTRUMENTATION only, linked against our own vector-clock runtime (engines/mcsched/race_rt.h) under the same baton scheduler: every load/store of the stored values and row subscripts of L and U (lusup, lsub, ucol, usub) and of their column pointers (xlsub, xlsub_end, xlusup, xlusup_end, xusub, xusub_end, xprune) in every explored execution is checked for an unordered conflicting access by another thread (happens-before edges: column flag spin_locks[], panel state, tasks_remain, ispruned[] publication, mutexes, create/join), so a window between two scheduling points is judged too (race_data_accesses / race_sync_accesses / race_reports)',
             'assumptions': ['sequential consistency; neither store buffering nor compiler reordering around the volatile flag store is modelled',
                             'n <= 8 harnesses, preemption bound as stated per job (bound completed is reported per job)',
                             'waiting is modelled as blocking at the flag test; fruitless polls of the task queue park the poller until the queue changes',
-                            'race monitor: data ranges are the L/U value and subscript arrays only (column metadata xlsub/xlusup/supno/perm_r is racy by design in places and judged by the event monitors and the numeric oracles); a release joins into the clock of the synchronisation cell (over-approximated release sequences: may hide, never invents a report); memcpy/memset inside the library are not instrumented by clang 14'],
+                            'race monitor: data ranges are the L/U value, subscript and column-pointer arrays (supno, xsup, xsup_end, perm_r, map_in_sup are racy by design in places and stay with the event monitors and the numeric oracles); a release joins into the clock of the synchronisation cell (over-approximated release sequences: may hide, never invents a report); memcpy/memset inside the library are not instrumented by clang 14'],
             'deadline': {'quick': 900, 'thorough': 5400}},
     'C04': {'jobs': jobs_C04, 'level': 'model_checking',
             'rule': 'same exploration as C03; in every execution: deadlock (no enabled thread) / runaway detection by the scheduler, exactly-once accounting of panels, columns, pivots and releases, tasks_remain == untaken panels at every scheduler return, queue bounds, every created thread joined',
